@@ -85,6 +85,8 @@ def gen_instance(rng, profile="mixed", nj=None, nm=None):
         profile = rng.choice(["classic", "transport", "transport", "buffers", "buffers", "full", "full"])
     if profile == "race":
         return gen_race(rng)
+    if profile == "multibuf":
+        return gen_multibuf(rng)
     if profile == "zerotravel":
         d, feats = gen_instance(rng, "transport", nj=rng.randint(2, 3), nm=2)
         names = ["m-0", "m-1", "in-buf", "out-buf"]
@@ -206,6 +208,45 @@ def gen_race(rng):
     d = {"title": "InstanceConfig", "instance_config": ic}
     feats = {"profile": "race", "nj": nj, "nm": nm, "routes": routes, "travel": "const", "nagv": nagv,
              "start_time": 0, "roomy": True, "buffer_mode": "global"}
+    return d, feats
+
+
+def gen_multibuf(rng):
+    """Several standalone buffers named in the travel matrix: two input buffers at different distances, jobs
+    spread over them by init_state, one output buffer, AGVs parked at random places."""
+    nj = rng.randint(2, 4)
+    nm = rng.randint(2, 3)
+    routes = gen_routes(rng, nj, nm)
+    names = ["m-%d" % k for k in range(nm)] + ["b-0", "b-1", "b-2"]
+    n = len(names)
+    mat = [[(0 if a == b else rng.randint(1, 9)) for b in range(n)] for a in range(n)]
+    nagv = rng.randint(1, 3)
+    ordered = rng.random() < 0.3     # ordered input buffers (jobs behind the head cannot be fetched: known findings)
+    ic = {"description": "multibuf", "instance": {"description": "gen", "specification": job_spec_text(routes)},
+          "logistics": {"type": "agv", "amount": nagv, "specification": matrix_text(names, mat)},
+          "buffer": [{"name": "b-0", "type": ("fifo" if ordered else "flex_buffer"), "capacity": nj + 1, "role": "input"},
+                     {"name": "b-1", "type": ("fifo" if ordered else "flex_buffer"), "capacity": nj + 1, "role": "input"},
+                     {"name": "b-2", "type": "flex_buffer", "capacity": nj + 1, "role": "output"}]}
+    init = {}
+    stores = {"b-0": [], "b-1": []}
+    for j in range(nj):
+        b = rng.choice(["b-0", "b-1", "b-1"])
+        stores[b].append("j-%d" % j)
+        init["j-%d" % j] = {"location": b}
+    for b, st in stores.items():
+        if st:
+            lst = list(st)
+            rng.shuffle(lst)
+            if rng.random() < 0.3:
+                lst = lst[: rng.randint(1, len(lst))]     # partial listing: the others follow the listed ones
+            if rng.random() < 0.8:
+                init[b] = {"store": lst}
+    for t in range(nagv):
+        if rng.random() < 0.8:
+            init["t-%d" % t] = {"location": rng.choice(names)}
+    d = {"title": "InstanceConfig", "instance_config": ic, "init_state": init}
+    feats = {"profile": "multibuf", "nj": nj, "nm": nm, "routes": routes, "travel": "asym", "nagv": nagv,
+             "start_time": 0, "roomy": True}
     return d, feats
 
 
